@@ -26,6 +26,24 @@ def edges(shape_sel: int, bits: int, wrap: bool, use_mask: bool) -> bool:
     pre: 0 <= shape_sel < len(SHAPES) and 0 <= bits < 512 and _fix("shape_sel", shape_sel) and _fix("wrap", wrap)
     post: __return__ == True
     """
+    return _edges(shape_sel, bits, wrap, use_mask)
+
+
+def edges_after_other_call(shape_sel: int, bits: int, wrap: bool, use_mask: bool, prev_wrap: bool) -> bool:
+    """the edge list does not depend on what was unwrapped before in the same process (an earlier unmasked call on the same grid
+    shape with either boundary mode)
+
+    pre: 0 <= shape_sel < len(SHAPES) and 0 <= bits < 512 and _fix("shape_sel", shape_sel) and _fix("wrap", wrap)
+    post: __return__ == True
+    """
+    H, W = _pick(SHAPES, shape_sel)
+    n = H * W
+    phi = (torch.arange(n, dtype=torch.float32).reshape(H, W) * 0.37) % 3.0 - 1.5
+    _build_edges(phi, _pixel_reliability(phi, None), None, wrap_around=bool(prev_wrap))
+    return _edges(shape_sel, bits, wrap, use_mask)
+
+
+def _edges(shape_sel, bits, wrap, use_mask):
     H, W = _pick(SHAPES, shape_sel)
     n = H * W
     m = [bool((bits >> i) & 1) for i in range(n)]
@@ -58,3 +76,11 @@ def edges__reach(shape_sel: int, bits: int, wrap: bool, use_mask: bool) -> bool:
     post: __return__ == False
     """
     return edges(shape_sel, bits, wrap, use_mask)
+
+
+def edges_after_other_call__reach(shape_sel: int, bits: int, wrap: bool, use_mask: bool, prev_wrap: bool) -> bool:
+    """
+    pre: 0 <= shape_sel < len(SHAPES) and 0 <= bits < 512
+    post: __return__ == False
+    """
+    return edges_after_other_call(shape_sel, bits, wrap, use_mask, prev_wrap)
